@@ -19,7 +19,7 @@ RULE = (
     "admissible states. Oracle: NumPy step of a twin network. Non-trivial = >=2 links and >=1 origin with a queue "
     "and all compared outputs finite. Distinct = SHA-1 of the case."
 )
-BUDGET = {"quick": {"examples": 250, "shards": 4}, "thorough": {"examples": 2500, "shards": 16}}
+BUDGET = {"quick": {"examples": 250, "shards": 4}, "thorough": {"fuzz_runs": 3000, "examples": 2500, "shards": 16}}
 EXPECTED_LABELS = ("engine:SX", "engine:MX", "compact:-1", "compact:0", "compact:1", "compact:2", "compact:3", "more_out", "sympars", "opts",
                    "merge", "bifurcation", "interior-ramp", "origin:main", "vsl:empty", "vsl:some")
 ASSUMPTIONS = ["outputs mapped through lib/layout.py", "tolerance 1e-9 x scale (|a|+|b| of the compared entries and of the inputs of the element)"]
@@ -73,14 +73,18 @@ def make_symbolic(sp, sym, sympars):
     overrides, par_over, parameters, values = {}, {}, {}, {}
     links = {l["id"]: l for l in sp["links"]}
     origins = {o["id"]: o for o in sp["origins"]}
+    used_keys = set()
     for k, (eid, pname) in enumerate(sympars or []):
         if eid == "$model":
-            key = "T" if (pname == "T" and k % 2 == 0) else f"p{k}_{pname}"
+            # the model parameter's own name (as users and the repository's tests do) or another key
+            key = pname if k % 2 == 0 else f"p{k}_{pname}"
             s = XX.sym(key)
             par_over[pname] = s
             values[key] = sp["pars"][pname]
         else:
-            key = f"p{k}_{pname}_{eid}"
+            # natural keys: the attribute name itself for the first element, attribute_element afterwards
+            key = pname if pname not in used_keys else f"{pname}_{eid}"
+            used_keys.add(pname)
             s = XX.sym(key)
             overrides.setdefault(eid, {})[pname] = s
             values[key] = (links.get(eid) or origins.get(eid))[pname]
@@ -91,11 +95,11 @@ def make_symbolic(sp, sym, sympars):
 def compile_case(case):
     sp = case["spec"]
     overrides, par_over, parameters, values = make_symbolic(sp, case["sym"], case.get("sympars"))
+    params = [(k, 1) for k in parameters]  # declared order, taken before the library sees the dictionary
     F, net, els = cas.compile_net(
         sp, case["sym"], case["compact"], case["more_out"], case["opts"], overrides, par_over, parameters or None
     )
     lay = layout.Layout(sp, layout.element_order(net, els))
-    params = [(k, 1) for k in parameters]
     return F, lay, params, values
 
 
